@@ -1004,7 +1004,8 @@ def _run_pair(ctx, case, tags=()):
     ctx.count("steps=%d" % len(steps))
     ctx.count("final-formats=%s/%s" % (fa_after, fb_after))
     detail = {"checks": checks, "model": r.get("model"), "differs": r.get("differs"),
-              "content_a": ca, "content_b": cb}
+              "content_a": ca, "content_b": cb, "fmt_after": [fa_after, fb_after], "steps_resolved": resolved,
+              "pid": os.getpid()}
     if not r["holds"]:
         ctx.fail(case, r["clause"], tags, detail=detail)
     elif not r["agree"]:
@@ -1548,7 +1549,7 @@ def run(ctx):
         run_pair(ctx, pair_case(cell, "dense", spec, "csr_unsorted", [], "differs"), ("wide", "last_cell"))
         lid = copy.deepcopy(spec)
         tgt = lid["samp"] if axis == "sample" else lid["obs"]
-        tgt[-1] = tgt[-1] + rng.choice([" ", "_" * 9, "0"])
+        tgt[-1] = tgt[-1] + rng.choice([" ", "_" * 9, "\u00e9"])
         run_pair(ctx, pair_case(lid, "csc", spec, "dense", [], "differs"), ("wide", "last_id"))
         lmd = copy.deepcopy(spec)
         if lmd.get("smd") and lmd.get("omd"):
@@ -1599,7 +1600,8 @@ def run(ctx):
     state_cases("late")
 
     # nothing may be left behind
-    left = [f for f in os.listdir(TMP) if f.endswith(".h5")] if os.path.isdir(TMP) else []
+    mine = "%d_" % os.getpid()
+    left = [f for f in os.listdir(TMP) if f.endswith(".h5") and mine in f] if os.path.isdir(TMP) else []
     if left:
         ctx.notes.append("temp files left under %s: %s" % (TMP, left))
 
